@@ -100,8 +100,10 @@ class Lexer:
     def __init__(self, *, env: JSONPathEnvironment) -> None:
         self.env = env
 
-        self.double_quote_pattern = r'"(?P<G_DQUOTE>(?:(?!(?<!\\)").)*)"'
-        self.single_quote_pattern = r"'(?P<G_SQUOTE>(?:(?!(?<!\\)').)*)'"
+        # A quote closes the string unless it is escaped. Note that a backslash
+        # before the closing quote could itself be escaped.
+        self.double_quote_pattern = r'"(?P<G_DQUOTE>(?:[^"\\]|\\.)*)"'
+        self.single_quote_pattern = r"'(?P<G_SQUOTE>(?:[^'\\]|\\.)*)'"
 
         # .thing
         self.dot_property_pattern = rf"\.(?P<G_PROP>{self.key_pattern})"
